@@ -230,6 +230,9 @@ func parent(spec *Spec, tier string, seed uint64, vdir, only string, limit int) 
 	var samples []any
 	outDir := envOr("VERIF_OUT", vdir) // scratch runs against another tree do not touch /verif/evidence
 	replayDir := filepath.Join(outDir, "replays", spec.ID)
+	if only != "" || limit > 0 { // debugging runs leave nothing in the registered directories
+		replayDir = filepath.Join(outDir, ".build", "debug-replays", spec.ID)
+	}
 	for _, oc := range outcomes {
 		pa := agg.PerPhase[oc.Phase]
 		if oc.Case >= 0 {
